@@ -46,29 +46,46 @@ theorem Desc.tail_cases {s : Sys} {a i : Nat} (h : Desc s a i) :
 /-- reached through `contents` from a root -/
 def reachable (s : Sys) (i : Nat) : Prop := ∃ r, r ∈ s.roots ∧ Desc s r i
 
+theorem visibleAux_step (s : Sys) (f i : Nat) :
+    visibleAux s (f+1) i = ((s.ob i).privacy != .hidden &&
+      match (s.ob i).parent with
+      | none => true
+      | some p => member s p (s.ob i).name == some i && visibleAux s f p) := by
+  rfl
+
 theorem visibleAux_mono (s : Sys) : ∀ f i, visibleAux s f i = true → visibleAux s (f+1) i = true := by
   intro f
   induction f with
   | zero => intro i h; simp [visibleAux] at h
   | succ f ih =>
     intro i h
-    rw [visibleAux] at h ⊢
+    rw [visibleAux_step] at h ⊢
     cases hp : (s.ob i).parent with
     | none => simpa [hp] using h
     | some p =>
       simp only [hp, Bool.and_eq_true] at h ⊢
-      exact ⟨h.1, ih p h.2⟩
+      exact ⟨h.1, h.2.1, ih p h.2.2⟩
+
+/-- a visible object with a parent is that parent's `contents` entry of its name, and the parent is visible -/
+theorem visible_parent' {s : Sys} {c p : Nat} (hp : (s.ob c).parent = some p) (hv : visible s c = true) :
+    member s p (s.ob c).name = some c ∧ visible s p = true := by
+  unfold visible at hv ⊢
+  rw [visibleAux_step] at hv
+  simp only [hp, Bool.and_eq_true, beq_iff_eq] at hv
+  exact ⟨hv.2.1, visibleAux_mono s _ _ hv.2.2⟩
 
 theorem visible_parent {s : Sys} {c p : Nat} (hp : (s.ob c).parent = some p) (hv : visible s c = true) :
-    visible s p = true := by
-  unfold visible at hv ⊢
-  rw [visibleAux] at hv
-  simp only [hp, Bool.and_eq_true] at hv
-  exact visibleAux_mono s _ _ hv.2
+    visible s p = true := (visible_parent' hp hv).2
+
+theorem visible_in_contents {s : Sys} {c p : Nat} (hp : (s.ob c).parent = some p) (hv : visible s c = true) :
+    c ∈ (s.ob p).contents := by
+  have := (visible_parent' hp hv).1
+  unfold member at this
+  exact List.mem_of_find?_eq_some this
 
 theorem visible_not_hidden {s : Sys} {c : Nat} (hv : visible s c = true) : (s.ob c).privacy ≠ .hidden := by
   unfold visible at hv
-  rw [visibleAux] at hv
+  rw [visibleAux_step] at hv
   simp only [Bool.and_eq_true, bne_iff_ne, ne_eq] at hv
   exact hv.1
 
@@ -97,6 +114,7 @@ structure WF (s : Sys) : Prop where
   parent_lt : ∀ i p, i < s.n → (s.ob i).parent = some p → p < i
   parent_page : ∀ i p, i < s.n → (s.ob i).parent = some p → (s.ob p).kind.ownPage = true
   orphan_module : ∀ i, i < s.n → (s.ob i).parent = none → (s.ob i).kind.isModule = true
+  orphan_root : ∀ i, i < s.n → (s.ob i).parent = none → i ∈ s.roots
   contents_lt : ∀ i c, c ∈ (s.ob i).contents → c < s.n
   contents_parent : ∀ i c, c ∈ (s.ob i).contents → (s.ob c).parent = some i
   contents_names : ∀ i c d, c ∈ (s.ob i).contents → d ∈ (s.ob i).contents → (s.ob c).name = (s.ob d).name → c = d
@@ -116,7 +134,7 @@ theorem wf_iff (s : Sys) (h : wf s = true) : WF s := by
     have := hobj' i hi
     simp only [wfObj, Bool.and_eq_true, List.all_eq_true, decide_eq_true_eq, beq_iff_eq] at this
     exact this.1.2 c hc
-  refine ⟨?_, ?_, ?_, fun i c h => (hc i c h).1, fun i c h => (hc i c h).2, ?_, fun r hr => (hroots r hr).1,
+  refine ⟨?_, ?_, ?_, ?_, fun i c h => (hc i c h).1, fun i c h => (hc i c h).2, ?_, fun r hr => (hroots r hr).1,
     fun r hr => (hroots r hr).2, ?_, ?_, ?_⟩
   · intro i p hi hp
     have := hobj' i hi
@@ -129,7 +147,11 @@ theorem wf_iff (s : Sys) (h : wf s = true) : WF s := by
   · intro i hi hp
     have := hobj' i hi
     simp only [wfObj, hp, Bool.and_eq_true] at this
-    exact this.1.1
+    exact this.1.1.1
+  · intro i hi hp
+    have := hobj' i hi
+    simp only [wfObj, hp, Bool.and_eq_true, List.contains_iff_mem] at this
+    exact this.1.1.2
   · intro i c d hc' hd hn
     have hi := lt_of_contents_ne hc'
     have := hobj' i hi
@@ -467,8 +489,7 @@ def Origin (s : Sys) (e : Emit) : Prop :=
   | .baseName => e.ctx = some e.page ∧ ∃ a, a ∈ (s.ob e.target).contents ∧ visible s a = true
   | .baseVia => e.ctx = some e.page ∧ ∃ p, p ∈ pages s ∧ e.target ∈ (s.ob p).mro
   | .docXref =>
-      ∃ o, Shown s e.page o ∧ e.target ∈ (s.ob o).xrefs ∧
-        (e.ctx = none ∨ ∃ sp, (s.ob o).docCtx = some sp ∧ e.ctx = some (pageFile s sp))
+      ∃ o op, Shown s e.page o ∧ e.target ∈ (s.ob o).xrefs ∧ pageObject s o = some op ∧ e.ctx = some (pageFile s op)
   | .annXref =>
       ∃ o op, Shown s e.page o ∧ e.target ∈ (s.ob o).annrefs ∧ pageObject s o = some op ∧ e.ctx = some (pageFile s op)
   | .extraInfo => e.ctx = some e.page ∧ ∃ p, p ∈ pages s ∧ e.target ∈ (s.ob p).ctors
@@ -493,16 +514,15 @@ theorem mem_sumLinks {s : Sys} {row : Row} {pg : File} {o : Nat} {e : Emit} (h :
 
 theorem mem_docLinks {s : Sys} {pg : File} {o : Nat} {e : Emit} (h : e ∈ docLinks s pg o) :
     e.row = .docXref ∧ e.page = pg ∧ e.target ∈ (s.ob o).xrefs ∧
-      (e.ctx = none ∨ ∃ sp, (s.ob o).docCtx = some sp ∧ e.ctx = some (pageFile s sp)) := by
+      ∃ op, pageObject s o = some op ∧ e.ctx = some (pageFile s op) := by
   unfold docLinks at h
   split at h
   · simp at h
   · split at h
-    · obtain ⟨t, ht, rfl⟩ := List.mem_map.mp h
-      exact ⟨rfl, rfl, ht, .inl rfl⟩
-    · rename_i sp hsp
+    · simp at h
+    · rename_i op hop
       obtain ⟨t, ht, rfl⟩ := List.mem_map.mp h
-      exact ⟨rfl, rfl, ht, .inr ⟨sp, hsp, rfl⟩⟩
+      exact ⟨rfl, rfl, ht, op, hop, rfl⟩
 
 theorem mem_annLinks {s : Sys} {pg : File} {o : Nat} {e : Emit} (h : e ∈ annLinks s pg o) :
     e.row = .annXref ∧ e.page = pg ∧ e.target ∈ (s.ob o).annrefs ∧
@@ -701,12 +721,23 @@ theorem rootStep_visible {s : Sys} {r : Roots} {c : Nat} (hr : RootsVisible s r)
     simp only [Bool.or_eq_true, Bool.not_eq_true', not_or, Bool.not_eq_true, Bool.not_eq_false] at hc
     have hv : visible s c = true := hc.2
     split
-    · intro kv hkv x hx
-      rcases mem_rset hkv with h | h
-      · exact hr kv h x hx
-      · rw [h] at hx
-        simp only [RootVal.classes, List.mem_singleton] at hx
-        exact hx ▸ hv
+    · split
+      · rename_i l hl
+        intro kv hkv x hx
+        rcases mem_rset hkv with h | h
+        · exact hr kv h x hx
+        · rw [h] at hx
+          obtain ⟨k', hk'⟩ := rget_mem hl
+          simp only [RootVal.classes, List.mem_append, List.mem_singleton] at hx
+          rcases hx with hx | rfl
+          · exact hr _ hk' _ (by simpa [RootVal.classes] using hx)
+          · exact hv
+      · intro kv hkv x hx
+        rcases mem_rset hkv with h | h
+        · exact hr kv h x hx
+        · rw [h] at hx
+          simp only [RootVal.classes, List.mem_singleton] at hx
+          exact hx ▸ hv
     · generalize ((s.ob c).baseNames.zip (s.ob c).bases) = l
       induction l generalizing r with
       | nil => exact hr
@@ -758,9 +789,9 @@ theorem origin_override {s : Sys} {p : Nat} {nm : Name} {e : Emit} (hp : p ∈ p
 
 theorem origin_doc {s : Sys} {p o : Nat} {e : Emit} (hp : p ∈ pages s) (ho : o = p ∨ o ∈ methods s p)
     (h : e ∈ docLinks s (pageFile s p) o) : Origin s e := by
-  obtain ⟨h1, h2, h3, h4⟩ := mem_docLinks h
+  obtain ⟨h1, h2, h3, op, h4, h5⟩ := mem_docLinks h
   simp only [Origin, h1]
-  exact ⟨o, ⟨p, hp, h2, ho⟩, h3, h4⟩
+  exact ⟨o, op, ⟨p, hp, h2, ho⟩, h3, h4, h5⟩
 
 theorem origin_ann {s : Sys} {p o : Nat} {e : Emit} (hp : p ∈ pages s) (ho : o = p ∨ o ∈ methods s p)
     (h : e ∈ annLinks s (pageFile s p) o) : Origin s e := by
@@ -983,14 +1014,13 @@ theorem origin_summary {s : Sys} {e : Emit} (h : e ∈ summaryEmits s) : Origin 
     · simp only [Origin, entry]; exact ⟨trivial, trivial, hv⟩
     · exact origin_of_sum (.inr (.inr rfl)) hv he
 
-/-- every emitted mention is produced by its row's code path -/
-theorem origin {s : Sys} {e : Emit} (h : e ∈ emits s) : Origin s e := by
-  unfold emits at h
+/-- every `taglink` call / listing entry is made by its row's code path -/
+theorem origin {s : Sys} {e : Emit} (h : e ∈ requests s) : Origin s e := by
+  unfold requests at h
   rcases List.mem_append.mp h with h | h
   · obtain ⟨p, hp, he⟩ := List.mem_flatMap.mp h
     exact origin_page hp he
   · exact origin_summary h
-
 /-! ### C11: links resolve -/
 
 theorem Desc.trans {s : Sys} {a b c : Nat} (h1 : Desc s a b) (h2 : Desc s b c) : Desc s a c := by
@@ -1002,20 +1032,69 @@ theorem reachable_desc {s : Sys} {a t : Nat} (h : reachable s a) (hd : Desc s a 
   obtain ⟨r, hr, hra⟩ := h
   exact ⟨r, hr, hra.trans hd⟩
 
-theorem chain_facts {s : Sys} (w : WF s) : ∀ f p a, a ∈ chainAux s f p → visible s p = true → reachable s p →
-    visible s a = true ∧ reachable s a := by
+theorem lt_of_not_hidden {s : Sys} {i : Nat} (h : (s.ob i).privacy ≠ .hidden) : i < s.n := by
+  rcases Nat.lt_or_ge i s.n with h' | h'
+  · exact h'
+  · rw [ob_default h'] at h; exact absurd rfl h
+
+/-- since cb98646 a visible object is its parent's `contents` entry, all the way up to a root: visible
+objects are reached through `contents` (a superseded duplicate `'x 0'`, and everything inside it, is not
+visible any more) -/
+theorem visible_reachable {s : Sys} (w : WF s) : ∀ f i, visibleAux s f i = true → reachable s i := by
   intro f
   induction f with
-  | zero => intro p a h; simp [chainAux] at h
+  | zero => intro i h; simp [visibleAux] at h
   | succ f ih =>
-    intro p a h hv hr
-    rw [chainAux] at h
-    rcases List.mem_cons.mp h with rfl | h
-    · exact ⟨hv, hr⟩
-    · split at h
-      · simp at h
-      · rename_i q hq
-        exact ih q a h (visible_parent hq hv) (reachable_parent w hr hq)
+    intro i h
+    rw [visibleAux_step] at h
+    simp only [Bool.and_eq_true, bne_iff_ne, ne_eq] at h
+    have hi := lt_of_not_hidden h.1
+    cases hp : (s.ob i).parent with
+    | none => exact ⟨i, w.orphan_root i hi hp, .refl i⟩
+    | some p =>
+      have h2 := h.2
+      simp only [hp, Bool.and_eq_true, beq_iff_eq] at h2
+      have hc : i ∈ (s.ob p).contents := by
+        have := h2.1
+        unfold member at this
+        exact List.mem_of_find?_eq_some this
+      exact reachable_child (ih p h2.2) hc
+
+theorem reachable_of_visible {s : Sys} (w : WF s) {i : Nat} (h : visible s i = true) : reachable s i :=
+  visible_reachable w _ i h
+
+/-- a superseded duplicate (`'x 0'`: registered, but not in its parent's `contents`) is not reached -/
+theorem superseded_not_reachable {s : Sys} (w : WF s) {i : Nat} (h : superseded s i = true) : ¬ reachable s i := by
+  intro hr
+  unfold superseded at h
+  rcases reachable_cases w hr with ⟨hroot, hp⟩ | ⟨p, hp, _, hc⟩
+  · simp [hp, hroot] at h
+  · simp [hp, hc] at h
+
+/-- an ancestor (through `contents`) of a reached object is reached -/
+theorem reachable_of_desc {s : Sys} (w : WF s) {a i : Nat} (hd : Desc s a i) (hr : reachable s i) : reachable s a := by
+  induction hd with
+  | refl i => exact hr
+  | @head a c i hm _ ih => exact reachable_parent w (ih hr) (w.contents_parent a c hm)
+
+/-- nor is anything inside one -/
+theorem inside_superseded_not_reachable {s : Sys} (w : WF s) {a i : Nat} (h : superseded s a = true)
+    (hd : Desc s a i) : ¬ reachable s i :=
+  fun hr => superseded_not_reachable w h (reachable_of_desc w hd hr)
+
+/-- **C11 (fixed in cb98646)** a superseded duplicate, and everything inside it, is not visible: nothing
+lists it or links it any more -/
+theorem superseded_invisible {s : Sys} (w : WF s) {a i : Nat} (h : superseded s a = true) (hd : Desc s a i) :
+    visible s i = false := by
+  cases hv : visible s i with
+  | false => rfl
+  | true => exact absurd (reachable_of_visible w hv) (inside_superseded_not_reachable w h hd)
+
+/-- **C11** `url o` leads to a written file (and anchor) exactly for the visible objects -/
+theorem url_resolves_iff_visible {s : Sys} (w : WF s) {i : Nat} (hi : i < s.n) :
+    urlResolves s i = true ↔ visible s i = true := by
+  rw [url_resolves_iff w hi]
+  exact ⟨fun h => h.1, fun h => ⟨h, reachable_of_visible w h⟩⟩
 
 /-- under `WF`, `parentMod` is one of the object's containers (or the object), and a module -/
 theorem module_in_chain {s : Sys} (w : WF s) {p m : Nat} (hp : p < s.n) (h : (s.ob p).modul = some m) :
@@ -1051,17 +1130,11 @@ theorem shorten_resolves (s : Sys) (pg : File) (u : Url) (ctx : Option File)
 def ctxOk (s : Sys) (e : Emit) : Prop :=
   e.ctx = none ∨ e.ctx = some e.page ∨ (s.ob e.target).kind.ownPage = true
 
-/-- **C11, all producer rows, under explicit hypotheses.**
-The full statement `∀ e ∈ emits s, resolves s e` is FALSE of the current code (see the three
-counterexamples below and known_findings.json):
--- theorem links_resolve_all (w : WF s) : ∀ e ∈ emits s, resolves s e = true
-What holds for every row: a link resolves when its target is visible, reached through `contents`
-(not a superseded duplicate, nor inside one) and the link is written into the page its shortening
-context names. -/
-theorem links_resolve_partial {s : Sys} (w : WF s) (e : Emit) (hv : visible s e.target = true)
-    (hr : reachable s e.target) (hc : ctxOk s e) : resolves s e = true := by
+/-- a link to a visible object, shortened for the page it is written into, resolves -/
+theorem resolves_of_visible {s : Sys} (w : WF s) (e : Emit) (hv : visible s e.target = true)
+    (hc : ctxOk s e) : resolves s e = true := by
   have hi := visible_lt hv
-  have hu := (url_resolves_iff w hi).mpr ⟨hv, hr⟩
+  have hu := (url_resolves_iff_visible w hi).mpr hv
   unfold resolves href
   unfold urlResolves at hu
   cases hurl : url s e.target with
@@ -1080,75 +1153,70 @@ theorem links_resolve_partial {s : Sys} (w : WF s) (e : Emit) (hv : visible s e.
         subst hurl
         exact .inr (.inr rfl)
 
-/-- **C11, the rows whose guard implies "visible and reached through `contents`"** (member tables,
-package `__init__` tables, member details, sidebar titles and direct items, heading, module index
-below the roots): every emitted link resolves. -/
-theorem links_resolve {s : Sys} (w : WF s) {e : Emit} (h : e ∈ emits s) (hg : e.row.guardReached = true) :
-    resolves s e = true := by
+/-- the page of an object displayed on a written page is that page -/
+theorem shown_page {s : Sys} (w : WF s) {pg : File} {o op : Nat} (h : Shown s pg o) (hp : pageObject s o = some op) :
+    pageFile s op = pg := by
+  obtain ⟨p, hpp, rfl, ho | ho⟩ := h
+  · subst ho
+    have hown := ((mem_pages_iff w o).mp hpp).2.2
+    simp [pageObject, hown] at hp
+    rw [hp]
+  · obtain ⟨hc, hk, _⟩ := mem_methods.mp ho
+    simp [pageObject, hk, w.contents_parent p o hc] at hp
+    rw [hp]
+
+/-- every `taglink` call is made with the address of the page the link is written into (or none), or for
+a target that has its own page (since 1da744b also for docstrings that are inherited or whose object was
+re-exported) -/
+theorem ctx_ok {s : Sys} (w : WF s) {e : Emit} (h : e ∈ requests s) (hl : e.row.isLink = true) : ctxOk s e := by
   have ho := origin h
-  have pagesF : ∀ p, p ∈ pages s → visible s p = true ∧ reachable s p ∧ (s.ob p).kind.ownPage = true := by
-    intro p hp
-    have := (mem_pages_iff w p).mp hp
-    exact ⟨this.2.1, this.1, this.2.2⟩
-  cases hrow : e.row <;> rw [hrow] at hg <;> (first | exact absurd hg (by decide) | skip) <;>
-    simp only [Origin, hrow] at ho
-  case table =>
-    obtain ⟨hc, _, hv, p, hp, _, hm⟩ := ho
-    exact links_resolve_partial w e hv (reachable_child (pagesF p hp).2.1 hm) (.inr (.inl hc))
-  case initTable =>
-    obtain ⟨hc, _, hv, p, hp, _, hm⟩ := ho
-    exact links_resolve_partial w e hv (reachable_child (pagesF p hp).2.1 hm) (.inr (.inl hc))
-  case detail =>
-    -- an anchor, not a hyperlink
-    simp [resolves, hrow, Row.isLink]
+  cases hrow : e.row <;> simp only [Origin, hrow] at ho <;>
+    (first | exact .inr (.inl ho.1) | exact .inl ho.1 | skip)
+  case detail => rw [hrow] at hl; cases hl
   case sidebarTitle =>
     obtain ⟨_, p, hp, _, ht⟩ := ho
-    obtain ⟨hvp, hrp, hop⟩ := pagesF p hp
+    have hpp := (mem_pages_iff w p).mp hp
     rcases ht with ht | ht | ht
-    · exact links_resolve_partial w e (ht ▸ hvp) (ht ▸ hrp) (.inr (.inr (ht ▸ hop)))
-    · exact links_resolve_partial w e (visible_parent ht hvp) (reachable_parent w hrp ht)
-        (.inr (.inr (w.parent_page p _ (visible_lt hvp) ht)))
-    · obtain ⟨ht, hm⟩ := module_in_chain w (visible_lt hvp) ht
-      obtain ⟨hv, hr⟩ := chain_facts w _ _ _ ht hvp hrp
-      exact links_resolve_partial w e hv hr (.inr (.inr (Kind.ownPage_of_isModule hm)))
-  case sidebarItem =>
-    obtain ⟨hc, _, hv, p, hp, _, a, ha, hd⟩ := ho
-    obtain ⟨hvp, hrp, _⟩ := pagesF p hp
-    have hra : reachable s a := by
-      rcases ha with rfl | ha | ha
-      · exact hrp
-      · exact reachable_parent w hrp ha
-      · exact (chain_facts w _ _ _ (module_in_chain w (visible_lt hvp) ha).1 hvp hrp).2
-    exact links_resolve_partial w e hv (reachable_desc hra hd) (.inr (.inl hc))
-  case heading =>
-    obtain ⟨hc, _, p, hp, _, ht⟩ := ho
-    obtain ⟨hvp, hrp, _⟩ := pagesF p hp
-    obtain ⟨hv, hr⟩ := chain_facts w _ _ _ ht hvp hrp
-    exact links_resolve_partial w e hv hr (.inr (.inl hc))
-  case modIndex =>
-    obtain ⟨hc, _, hv, r, hr, hd⟩ := ho
-    exact links_resolve_partial w e hv ⟨r, hr, hd⟩ (.inr (.inl hc))
+    · exact .inr (.inr (ht ▸ hpp.2.2))
+    · exact .inr (.inr (w.parent_page p _ (visible_lt hpp.2.1) ht))
+    · exact .inr (.inr (Kind.ownPage_of_isModule (module_in_chain w (visible_lt hpp.2.1) ht).2))
+  case docXref =>
+    obtain ⟨o, op, hs, _, hpo, hc⟩ := ho
+    exact .inr (.inl (by rw [hc, shown_page w hs hpo]))
+  case annXref =>
+    obtain ⟨o, op, hs, _, hpo, hc⟩ := ho
+    exact .inr (.inl (by rw [hc, shown_page w hs hpo]))
 
-/-- a superseded duplicate (`'x 0'`: registered, but not in its parent's `contents`) is not reached -/
-theorem superseded_not_reachable {s : Sys} (w : WF s) {i : Nat} (h : superseded s i = true) : ¬ reachable s i := by
-  intro hr
-  unfold superseded at h
-  rcases reachable_cases w hr with ⟨hroot, hp⟩ | ⟨p, hp, _, hc⟩
-  · simp [hp, hroot] at h
-  · simp [hp, hc] at h
+/-- what `taglink`'s guard leaves of the requests: a request for a visible target unchanged, or a listing
+element written without its link -/
+theorem mem_emits {s : Sys} {e : Emit} (h : e ∈ emits s) :
+    (e ∈ requests s ∧ visible s e.target = true) ∨
+      (e.linked = false ∧ visible s e.target = false ∧
+        ∃ r, r ∈ requests s ∧ r.row.isEntry = true ∧ r.row = e.row ∧ r.target = e.target ∧ r.marked = e.marked) := by
+  unfold emits at h
+  obtain ⟨r, hr, hg⟩ := List.mem_filterMap.mp h
+  unfold taglinkGuard at hg
+  split at hg
+  · injection hg with hg; subst hg; rename_i hv; exact .inl ⟨hr, hv⟩
+  · rename_i hv
+    split at hg
+    · rename_i hrow
+      injection hg with hg
+      subst hg
+      exact .inr ⟨rfl, by simpa using hv, r, hr, hrow, rfl, rfl, rfl⟩
+    · cases hg
 
-/-- an ancestor (through `contents`) of a reached object is reached -/
-theorem reachable_of_desc {s : Sys} (w : WF s) {a i : Nat} (hd : Desc s a i) (hr : reachable s i) : reachable s a := by
-  induction hd with
-  | refl i => exact hr
-  | @head a c i hm _ ih => exact reachable_parent w (ih hr) (w.contents_parent a c hm)
+/-- **C11, every producer row, full strength.** Every hyperlink the run emits leads to a file that was
+written and, if it has a fragment, to an anchor of that file.
+(Before cb98646 / aaed9bd / 1da744b this was false in three ways: see the `…_old` counterexamples.) -/
+theorem links_resolve {s : Sys} (w : WF s) {e : Emit} (h : e ∈ emits s) : resolves s e = true := by
+  rcases mem_emits h with ⟨hr, hv⟩ | ⟨hl, _⟩
+  · cases hlink : e.row.isLink with
+    | false => simp [resolves, hlink]
+    | true => exact resolves_of_visible w e hv (ctx_ok w hr hlink)
+  · simp [resolves, hl]
 
-/-- nor is anything inside one -/
-theorem inside_superseded_not_reachable {s : Sys} (w : WF s) {a i : Nat} (h : superseded s a = true)
-    (hd : Desc s a i) : ¬ reachable s i :=
-  fun hr => superseded_not_reachable w h (reachable_of_desc w hd hr)
-
-/-! ### counterexamples: the three ways the full statement fails on the current code -/
+/-! ### historical counterexamples: how the statement failed before the fixes -/
 
 /-- an object of module 0 (the examples below have one module, object 0) -/
 def mkObj (name : Name) (kind : Kind) (parent : Option Nat) (privacy : Level) (contents : List Nat) : Obj :=
@@ -1156,23 +1224,25 @@ def mkObj (name : Name) (kind : Kind) (parent : Option Nat) (privacy : Level) (c
                          modul := some 0 }
 
 /-- `m.py`: `class C: pass` twice. Object 1 is the superseded first definition `'C 0'`: registered in
-`allobjects`, visible, not in `m.contents`. -/
+`allobjects`, not in `m.contents`. -/
 def sSuperseded : Sys :=
   { objs := [ mkObj ['m'] .module none .pub [2],
               mkObj ['C', ' ', '0'] .cls (some 0) .pub [],
               mkObj ['C'] .cls (some 0) .pub [] ],
     all := [0, 1, 2], roots := [0], depth := 1, nosidebar := false }
 
-/-- DESIGN §8-4: nameIndex.html, undoccedSummary.html and all-documents.html (hence the search
-results) link `m.C%200.html`, which is never written. -/
-theorem links_resolve_counterexample_superseded :
-    wf sSuperseded = true ∧ visible sSuperseded 1 = true ∧ superseded sSuperseded 1 = true ∧
-    url sSuperseded 1 = some ⟨.page ['m', '.', 'C', ' ', '0'], none⟩ ∧
-    ([Row.nameIndex, Row.undoc, Row.allDocs].all fun r =>
-      (emits sSuperseded).any fun e => e.row == r && e.target == 1 && !resolves sSuperseded e) = true := by
+/-- DESIGN §8-4, before cb98646: the old `isVisible` called `'C 0'` visible, so nameIndex.html,
+undoccedSummary.html, all-documents.html and the search index (which iterate the visible objects of
+`allobjects`) linked `m.C%200.html`, which is never written. Now it is invisible and nothing mentions it. -/
+theorem links_resolve_counterexample_superseded_old :
+    wf sSuperseded = true ∧ superseded sSuperseded 1 = true ∧
+    visibleOld sSuperseded 1 = true ∧ (visibleAllOld sSuperseded).contains 1 = true ∧
+    url sSuperseded 1 = some ⟨.page ['m', '.', 'C', ' ', '0'], none⟩ ∧ urlResolves sSuperseded 1 = false ∧
+    -- fixed code
+    visible sSuperseded 1 = false ∧ (emits sSuperseded).all (fun e => e.target != 1 && resolves sSuperseded e) = true := by
   decide
 
-/-- `class _H` is HIDDEN, `class V(_H)` is visible: the class signature of `V` links `m._H.html`. -/
+/-- `class _H` is HIDDEN, `class V(_H)` is visible. -/
 def sHidden : Sys :=
   { objs := [ mkObj ['m'] .module none .pub [1, 2],
               mkObj ['_', 'H'] .cls (some 0) .hidden [],
@@ -1180,15 +1250,17 @@ def sHidden : Sys :=
                   bases := [some 1], baseNames := [['m', '.', '_', 'H']], mro := [2, 1], sigrefs := [some 1] } ],
     all := [0, 1, 2], roots := [0], depth := 1, nosidebar := false }
 
-/-- DESIGN §8-11: an unguarded row (`format_class_signature` → `taglink`) links a hidden object. -/
-theorem links_resolve_counterexample_hidden :
-    wf sHidden = true ∧ visible sHidden 1 = false ∧
-    ((emits sHidden).any fun e => e.row == .classSig && e.target == 1 && !resolves sHidden e) = true := by
+/-- DESIGN §8-11, before aaed9bd: every request was rendered as a link, also the class-signature request
+for the hidden base (`format_class_signature` has no guard of its own). Now `taglink` refuses it. -/
+theorem links_resolve_counterexample_hidden_old :
+    wf sHidden = true ∧ visible sHidden 1 = false ∧ urlResolves sHidden 1 = false ∧
+    ((requests sHidden).any fun e => e.row == .classSig && e.target == 1) = true ∧
+    -- fixed code
+    (emits sHidden).all (fun e => e.target != 1 && resolves sHidden e) = true := by
   decide
 
-/-- `class B: def meth…; def other: '''see L{meth}'''`, `class S(B): def other(self): pass`.
-`S.other` (5) shows the docstring of `B.other` (3); its link to `B.meth` (2) is shortened relative
-to `m.B.html` but written into `m.S.html`, which has no anchor `meth`. -/
+/-- `class B` with `meth` and `o` (docstring: see `L{meth}`); `class S(B)` redefines `o` without docstring.
+`S.o` (5) shows the docstring of `B.o` (3), whose linker remembers the page of `B` (`docCtx = 1`). -/
 def sContext : Sys :=
   { objs := [ mkObj ['m'] .module none .pub [1, 4],
               { mkObj ['B'] .cls (some 0) .pub [2, 3] with mro := [1] },
@@ -1199,16 +1271,19 @@ def sContext : Sys :=
               { mkObj ['o'] .function (some 4) .pub [] with docSource := some 3, docCtx := some 1, xrefs := [2], hasDoc := true } ],
     all := [0, 1, 2, 3, 4, 5], roots := [0], depth := 1, nosidebar := false }
 
-/-- a dead link to a target that is visible and reached: the inherited docstring's context. -/
-theorem links_resolve_counterexample_context :
+/-- before 1da744b: the link to the visible, reached `B.meth` was shortened to `#meth` relative to
+`m.B.html` and written into `m.S.html`, which has no such anchor. Now the context is `m.S.html`. -/
+theorem links_resolve_counterexample_context_old :
     wf sContext = true ∧ visible sContext 2 = true ∧ urlResolves sContext 2 = true ∧
-    ((emits sContext).any fun e =>
-        e.row == .docXref && e.target == 2 && e.page == .page ['m', '.', 'S'] && e.ctx == some (.page ['m', '.', 'B'])
-          && !resolves sContext e) = true := by
+    ((docLinksOld sContext (.page ['m', '.', 'S']) 5).any fun e =>
+        e.ctx == some (.page ['m', '.', 'B']) && !resolves sContext e) = true ∧
+    -- fixed code
+    ((docLinks sContext (.page ['m', '.', 'S']) 5).all fun e =>
+        e.ctx == some (.page ['m', '.', 'S']) && resolves sContext e) = true ∧
+    (emits sContext).all (resolves sContext) = true := by
   decide
 
-/-- "View In Hierarchy" (`classIndex.html#<fullName>`) of a class whose base is a superseded
-duplicate: `findRootClasses` skips the base (`' ' in cls.name`), so the class is never listed. -/
+/-- `class C` twice, `class D(C)` in between: D's base is the superseded `'C 0'`. -/
 def sHierarchy : Sys :=
   { objs := [ mkObj ['m'] .module none .pub [2, 3],
               mkObj ['C', ' ', '0'] .cls (some 0) .pub [],
@@ -1217,10 +1292,31 @@ def sHierarchy : Sys :=
                   bases := [some 1], baseNames := [['m', '.', 'C', ' ', '0']], mro := [3, 1], sigrefs := [some 1] } ],
     all := [0, 1, 2, 3], roots := [0], depth := 1, nosidebar := false }
 
-theorem inhierarchy_counterexample :
-    wf sHierarchy = true ∧
-    ((inHierarchy sHierarchy).any fun (pg, a) => pg == .page ['m', '.', 'D'] &&
-        !(anchorsOf sHierarchy (.summary .classIndex)).contains a) = true := by
+/-- "View In Hierarchy" (`classIndex.html#m.D`), before cb98646: the base was visible, so `D` was neither a
+root nor grouped under a name, and `findRootClasses` skips `'C 0'` (`' ' in cls.name`): `D` was not listed.
+Now the base is invisible and `D` is listed under its name. -/
+theorem inhierarchy_counterexample_old :
+    wf sHierarchy = true ∧ (classIndexListedOld sHierarchy).contains 3 = false ∧
+    -- fixed code
+    ((inHierarchy sHierarchy).all fun (_, a) => (anchorsOf sHierarchy (.summary .classIndex)).contains a) = true := by
+  decide
+
+/-- `class K` (no bases, object 2) and `C_r` (object 1) whose base `m.K` could not be resolved; `C_r` is
+registered first. -/
+def sCollision : Sys :=
+  { objs := [ mkObj ['m'] .module none .pub [1, 2],
+              { mkObj ['C', '_', 'r'] .cls (some 0) .pub [] with
+                  bases := [none], baseNames := [['m', '.', 'K']], mro := [1], sigrefs := [none] },
+              { mkObj ['K'] .cls (some 0) .pub [] with mro := [2] } ],
+    all := [0, 1, 2], roots := [0], depth := 1, nosidebar := false }
+
+/-- before 97be2c0: `roots['m.K'] = [C_r]` was overwritten by `roots['m.K'] = K`; `C_r` vanished from
+classIndex.html and its "View In Hierarchy" link had no anchor. -/
+theorem inhierarchy_counterexample_collision_old :
+    wf sCollision = true ∧ (classIndexListedOld sCollision).contains 1 = false ∧
+    -- fixed code
+    (classIndexListed sCollision).contains 1 = true ∧
+    ((inHierarchy sCollision).all fun (_, a) => (anchorsOf sCollision (.summary .classIndex)).contains a) = true := by
   decide
 
 /-! ### non-vacuity: the hypotheses of the theorems above are met by systems with output -/
@@ -1233,10 +1329,11 @@ def sPlain : Sys :=
     all := [0, 1, 2], roots := [0], depth := 2, nosidebar := false }
 
 example : wf sPlain = true ∧ (emits sPlain).length = 25 ∧
-    ((emits sPlain).filter fun e => e.row.guardReached).length = 14 ∧
+    ((emits sPlain).filter fun e => e.row.isLink && e.linked).length = 24 ∧
     (emits sPlain).all (resolves sPlain) = true := by decide
 example : urlResolves sPlain 1 = true ∧ urlResolves sPlain 2 = true ∧
     url sPlain 2 = some ⟨.page ['m', '.', 'K'], some ['f']⟩ ∧ url sPlain 0 = some ⟨.index, none⟩ := by decide
 example : urlResolves sSuperseded 1 = false ∧ urlResolves sSuperseded 2 = true := by decide
+example : superseded sSuperseded 1 = true ∧ visible sSuperseded 1 = false := by decide
 
 end Output
